@@ -130,9 +130,6 @@ def literal_names(mod, node) -> set[str]:
     for n in ast.walk(mod.tree):
         if isinstance(n, ast.ClassDef):
             lit.add(n.name)
-            for s in n.body:
-                if isinstance(s, (ast.FunctionDef, ast.AsyncFunctionDef)):
-                    lit.add(s.name)
     for n in ast.walk(top):
         if isinstance(n, (ast.FunctionDef, ast.AsyncFunctionDef, ast.Lambda)):
             a = n.args
@@ -204,3 +201,45 @@ def amatch(node, text: str) -> bool:
         return False
     p = _auto_pattern(node, text)
     return match(p, node) is not None
+
+
+class T(str):
+    """text view of a node (a str: the unparsed source) whose CONTAINMENT and EQUALITY tests are structural:
+    `"<python fragment>" in T(node)` looks for a sub-tree matching the fragment, with the fragment's local variable
+    names as metavariables.  Fragments that are not complete Python (or a bare identifier / constant) fall back to
+    a substring test on the text."""
+
+    def __new__(cls, node):
+        text = ast.unparse(node) if isinstance(node, ast.AST) else "\n".join(ast.unparse(n) for n in node)
+        self = super().__new__(cls, text)
+        self.node = node
+        return self
+
+    def __contains__(self, pat) -> bool:
+        if str.__contains__(self, pat):
+            return True  # literally present: same spelling, nothing to abstract
+        try:
+            p = compile_pattern(pat)
+        except SyntaxError:
+            return False
+        if isinstance(p, (ast.Name, ast.Constant)):
+            return False
+        return ahas(self.node, pat)
+
+    def __eq__(self, other):
+        if isinstance(other, str) and not isinstance(other, T):
+            if str.__eq__(self, other):
+                return True
+            try:
+                p = compile_pattern(other)
+            except SyntaxError:
+                return False
+            if isinstance(p, (ast.Name, ast.Constant)):
+                return False  # a bare identifier is a spelling, nothing structural to compare
+            return bool(amatch(self.node, other))
+        return str.__eq__(self, other)
+
+    def __ne__(self, other):
+        return not self.__eq__(other)
+
+    __hash__ = str.__hash__
